@@ -121,10 +121,11 @@ class SupervisorNamespaceRPCInterface:
             raise RPCError(Faults.NO_FILE, logfile)
 
         try:
-            return as_string(readFile(logfile, int(offset), int(length)))
+            data = readFile(logfile, int(offset), int(length))
         except ValueError as inst:
             why = inst.args[0]
             raise RPCError(getattr(Faults, why))
+        return _decode_log(data)
 
     readMainLog = readLog # b/w compatibility with releases before 2.1
 
@@ -713,10 +714,11 @@ class SupervisorNamespaceRPCInterface:
             raise RPCError(Faults.NO_FILE, logfile)
 
         try:
-            return as_string(readFile(logfile, int(offset), int(length)))
+            data = readFile(logfile, int(offset), int(length))
         except ValueError as inst:
             why = inst.args[0]
             raise RPCError(getattr(Faults, why))
+        return _decode_log(data)
 
     def readProcessStdoutLog(self, name, offset, length):
         """ Read length bytes from name's stdout log starting at offset
@@ -926,6 +928,13 @@ class SupervisorNamespaceRPCInterface:
         )
 
         return True
+
+def _decode_log(data):
+    # the requested window may cut a multi-byte character, and a log may
+    # contain bytes that are not valid UTF-8 at all
+    if isinstance(data, bytes):
+        return data.decode('utf-8', 'replace')
+    return data
 
 def _total_seconds(timedelta):
     return ((timedelta.days * 86400 + timedelta.seconds) * 10**6 +
